@@ -221,7 +221,13 @@ func cmdFaults(args []string) error {
 			`construct {?s "new"@[] ?o ; "x"@[] ?p} into ?b from ?g, ?a where {?s ?p ?o};`,
 			`deconstruct {?s ?p ?o} in ?a from ?a where {?s ?p ?o};`,
 			`select ?s from ?a where {/u<a> "p"@[] /u<b> . ?s ?p ?o};`,
-			`select ?s, ?o from ?a, ?b, ?g where {?s "p"@[] ?o . ?o ?q ?x};`)
+			`select ?s, ?o from ?a, ?b, ?g where {?s "p"@[] ?o . ?o ?q ?x};`,
+			// LIMIT pushed down into the driver (one clause, three plain bindings): a read that fails after it
+			// has delivered as many rows as the limit asks for has still failed
+			`select ?s, ?p, ?o from ?a where {?s ?p ?o} limit "1"^^type:int64;`,
+			`select ?s, ?p, ?o from ?a, ?b where {?s ?p ?o} limit "2"^^type:int64;`,
+			`select ?s, ?p, ?o from ?g, ?a, ?b where {?s ?p ?o} limit "3"^^type:int64;`,
+			`select ?o, ?s, ?p from ?b, ?g where {?s ?p ?o} limit "4"^^type:int64;`)
 		for i := 0; i < *n; i++ {
 			if r.chance(3, 5) {
 				q.mode = modes[r.intn(len(modes))]
